@@ -179,6 +179,9 @@ class L2Domain:
             t = float
         if isinstance(t, type) and t in (int, float, complex) and isinstance(obj, t) and not isinstance(obj, bool):
             return True
+        from .shape import NpIntSize
+        if isinstance(obj, NpIntSize):
+            return t in (fakelib.FakeNumpy.int32, fakelib.FakeNumpy.int64) or getattr(t, '__name__', '') in ('integer', 'signedinteger', 'number', 'generic')
         if t is fakelib.NdarrayType:
             return isinstance(obj, Arr)
         if t is int or t in (fakelib.FakeNumpy.int32, fakelib.FakeNumpy.int64):
